@@ -429,3 +429,30 @@ Example C12_ex_encodings :
   = (None, Some [("collection", JArr [JNum "1"])], Some [("content", JStr "[1]")],
      Some [("collection", JArr [JNum "1"])]).
 Proof. vm_compute. reflexivity. Qed.
+
+(* the pass-through (no-op) proxy is built for the exact spelling "no-op" only; under every other
+   spelling of an encoding name ("No-Op", "NO-OP", "JSON", ...) statuses are classified as usual,
+   although the decoder is looked up case-insensitively *)
+Theorem C12_enc_of_noop_iff : forall name coll, enc_of name coll = EncNoop <-> name = "no-op".
+Proof. exact enc_of_noop_iff. Qed.
+Print Assumptions C12_enc_of_noop_iff.
+
+Theorem C12_other_spelling_classified : forall name coll m r parsed,
+  name <> "no-op" -> ok_status (r_code r) = false ->
+  http_proxy_outcome_enc (enc_of name coll) m r parsed =
+  match m with
+  | MDefault => (None, EInvalidStatus)
+  | MErrorCode => (None, ECode (r_code r) (r_body r) (r_enc r))
+  | MDetails n =>
+      (Some {| p_data := [(("error_" ++ n)%string, error_object (r_code r) (r_body r) (r_enc r))];
+               p_complete := false; p_status := r_code r |}, ENone)
+  end.
+Proof. exact other_spelling_classified. Qed.
+Print Assumptions C12_other_spelling_classified.
+
+Example C12_ex_noop_spellings :
+  (enc_of "no-op" false, enc_of "No-Op" false, enc_of "NO-OP" true, enc_of "SafeJSON" false, enc_of "STRING" false, enc_of "Xml" true)
+  = (EncNoop, EncNoopDecoder, EncNoopDecoder, EncSafeJson, EncString, EncJson true) /\
+  http_proxy_outcome_enc (enc_of "No-Op" false) MDefault {| r_code := 503; r_body := "down"; r_enc := "" |} None
+  = (None, EInvalidStatus).
+Proof. vm_compute. split; reflexivity. Qed.
